@@ -155,7 +155,7 @@ def run(only=None):
     thorough = r.tier == "thorough"
     rng = random.Random(core.seed())
     r.cov["rule"] = ("case = one history of Identity.tla (messages in either direction as whole exchanges, reinstall with a new identity, restart, "
-                     "automatic trust switched on / off at run time; 2 accounts with up to 2 (thorough 3) identity generations, thorough also 3 accounts) "
+                     "automatic trust switched on / off at run time; 2 accounts with up to 3 identity generations; thorough: plus random walks, and the 3-account model checked by TLC) "
                      "replayed on real stacks against the server double; after every action the identity rows of every store (separate SQLite "
                      "connection) and the delivery outcome are compared with the specification; distinct by history")
     for cfg in (("MC_Identity.cfg",) + (("MC_Identity_thorough.cfg",) if thorough else ())):
@@ -166,7 +166,8 @@ def run(only=None):
     r.notes["selftest_asread_switch_violates"] = "PinStable"
     roots = e2ekit.Roots()
     try:
-        for cfg, names in ((("Edges_Identity.cfg", ["a", "b"]),) + ((("Edges_Identity_3.cfg", ["a", "b", "c"]),) if thorough else ())):
+        # the 3-account model (thorough) is checked by TLC only: its 14 million transitions cannot be dumped, and pairs of accounts are independent
+        for cfg, names in (("Edges_Identity.cfg", ["a", "b"]),):
             eg = core.tlc("Identity", cfg, r.scratch, workers=1, timeout=3000)
             g = core.Graph(eg.printed())
             if len(g.edges) < 300:
